@@ -19,16 +19,16 @@ variable (H : Data → Digest) (Hc : Str → Str)
     receive of the same packet with any other port: the checks never look at the port. -/
 theorem port_not_bound (s : Core) (p : Packet) (π : Proof) (h : Nat) (q : String)
     (hok : RecvOk H s p π h) : RecvOk H s { p with port := q } π h := by
-  obtain ⟨hv, hr, cl, sn, hcl, hle, hsn, hπ, hc⟩ := hok
-  refine ⟨?_, hr, cl, sn, hcl, hle, hsn, hπ, hc⟩
+  obtain ⟨hv, hr, cl, sn, hcl, ha, hle, hsn, hπ, hc⟩ := hok
+  refine ⟨?_, hr, cl, sn, hcl, ha, hle, hsn, hπ, hc⟩
   unfold validatePacket at hv ⊢
   exact hv
 
 /-- Same for acknowledgements: the port of the packet presented with an acknowledgement is free. -/
 theorem ack_port_not_bound (s : Core) (p : Packet) (a : Data) (π : Proof) (h : Nat) (q : String)
     (hok : AckOk H s p a π h) : AckOk H s { p with port := q } a π h := by
-  obtain ⟨hv, hcm, cl, sn, hcl, hle, hsn, hπ, hc⟩ := hok
-  refine ⟨?_, hcm, cl, sn, hcl, hle, hsn, hπ, hc⟩
+  obtain ⟨hv, hcm, cl, sn, hcl, ha, hle, hsn, hπ, hc⟩ := hok
+  refine ⟨?_, hcm, cl, sn, hcl, ha, hle, hsn, hπ, hc⟩
   unfold validatePacket at hv ⊢
   exact hv
 
@@ -38,12 +38,12 @@ theorem ack_port_not_bound (s : Core) (p : Packet) (a : Data) (π : Proof) (h : 
     really sent. The relay chain (and its whitelist) is bypassed. -/
 theorem relay_not_bound (s : Core) (p : Packet) (h : Nat) (cl : Client) (sn : Snapshot)
     (hv : validatePacket s p = .ok) (hdst : p.dst = s.name) (hr : s.ps.receipt p.key = false)
-    (hcl : s.clients p.src = some cl) (hle : h ≤ cl.latest) (hsn : cl.cons h = some sn)
+    (hcl : s.clients p.src = some cl) (hact : cl.active s.now = true) (hle : h ≤ cl.latest) (hsn : cl.cons h = some sn)
     (hc : sn.commit p.key = some (H p.data)) :
     RecvOk H s { p with relay := "" } (.honest p.src h (.commit p.key)) h := by
   have hprover : recvProver s { p with relay := "" } = p.src := by
     unfold recvProver; simp
-  refine ⟨?_, hr, cl, sn, by rw [hprover]; exact hcl, hle, hsn, by rw [hprover]; rfl, hc⟩
+  refine ⟨?_, hr, cl, sn, by rw [hprover]; exact hcl, hact, hle, hsn, by rw [hprover]; rfl, hc⟩
   have hpb := (validatePacket_ok s p hv)
   unfold validatePacket
   have hb : packetBasic { p with relay := "" } = true := hpb.1
